@@ -57,6 +57,8 @@ func c07cli(c *h.Ctx) {
 	tasks.Set("bad-dir", gen.OM{{K: "dir", V: "{{.NoSuchVariable}}/x"}, {K: "command", V: []interface{}{"printf 'bd\\n' >> \"$TRACE\""}}})
 	// an external command whose coloured output arrives in two writes (succeeds under every output format)
 	tasks.Set("ansi-split", gen.OM{{K: "command", V: []interface{}{"sh -c 'printf \"a\\033[3\"; sleep 0.3; printf \"1mRED\\033[0m\\n\"'", "printf 'as\\n' >> \"$TRACE\""}}})
+	// a failing pipeline first run through a stage that tolerates its failure, then named as a target itself
+	pipes.Set("ptol", []interface{}{gen.OM{{K: "name", V: "inc"}, {K: "pipeline", V: "pbad"}, {K: "allow_failure", V: true}}})
 	cfgX := gen.OM{{K: "contexts", V: gen.OM{{K: "badup", V: gen.OM{{K: "up", V: []interface{}{"exit 1"}}}}}}, {K: "tasks", V: tasks}, {K: "pipelines", V: pipes}}
 	h.WriteFile(dir+"/tasks.yaml", gen.YAML(cfgX))
 	type xcase struct {
@@ -73,6 +75,7 @@ func c07cli(c *h.Ctx) {
 	for _, f := range []string{"raw", "prefixed", "cockpit"} {
 		xs = append(xs, xcase{[]string{"-o", f, "ansi-split", "ok1"}, "as ok1", false})
 	}
+	xs = append(xs, xcase{[]string{"-o", "raw", "ptol", "ok1"}, "pc ok1", false}, xcase{[]string{"-o", "raw", "ptol", "pbad", "ok1"}, "pc", true}, xcase{[]string{"-o", "raw", "run", "ptol", "pbad", "ok1"}, "pc", true})
 	h.Par(len(xs), 8, func(i int) {
 		x := xs[i]
 		trace := fmt.Sprintf("%s/trace.x%d", dir, i)
